@@ -40,7 +40,12 @@ func c05Drivers() []concParams {
 		// one deviation) while the second client and then all background work run to quiescence
 		// before it resumes - the shape of a read after an unlock, of a reference taken too late
 		{Name: "get-preempted-by-flush", Cfg: "flushy/bytewise", Pre: []string{"put:a", "put:b"}, Clients: [][]string{{"get:a", "get:b"}, {"put:a", "put:a"}}, QB: 2, TB: 3, SQ: 1, ST: 2},
-		{Name: "iter-preempted-by-flush", Cfg: "flushy/bytewise", Pre: []string{"put:a", "put:b"}, Clients: [][]string{{"iterscan"}, {"put:a", "put:a"}}, QB: 2, TB: 3, SQ: 1, ST: 2},
+		{Name: "iter-preempted-by-flush", Cfg: "flushy/bytewise", Pre: []string{"put:a", "put:b"}, Clients: [][]string{{"iterscan"}, {"put:a", "put:a"}}, QB: 2, TB: 3, SQ: 1, ST: 2, RevSame: true},
+		// a write buffer that still holds earlier acknowledged writes is rotated while a view is
+		// being put together (in the flushy option set every put rotates the buffer right after
+		// itself, so a buffer being rotated never holds anything older than the rotating write)
+		{Name: "iter-preempted-by-rotation", Cfg: "wide/bytewise", Pre: []string{"putM:a", "putE:b"}, Clients: [][]string{{"iterscan"}, {"putL:c"}}, QB: 2, TB: 3, RevSame: true},
+		{Name: "readers-preempted-by-rotation", Cfg: "wide/bytewise", Pre: []string{"putM:a", "putE:b"}, Clients: [][]string{{"get:a", "snapget:a,b"}, {"putL:c", "get:b"}}, QB: 2, TB: 3, RevSame: true},
 		{Name: "snapshot-preempted-by-compaction", Cfg: "flushy/bytewise", Pre: []string{"put:a", "put:b", "q"}, Clients: [][]string{{"snapget:a,b,a"}, {"put:a", "cr"}}, QB: 1, TB: 2, SQ: 1, ST: 1},
 		{Name: "write-preempted-by-writer", Cfg: "roomy/bytewise", Clients: [][]string{{"put:a", "get:a"}, {"put:a", "w:+a,+b"}}, QB: 2, TB: 3, SQ: 1, ST: 2},
 		{Name: "get-preempted-by-transaction", Cfg: "bigbatch/bytewise", Pre: []string{"put:a"}, Clients: [][]string{{"get:a", "get:b"}, {"tr:+a,+b"}}, QB: 2, TB: 3, SQ: 1, ST: 1},
@@ -85,7 +90,9 @@ func runConcChecks(c *explore.Ctx, id string, drivers []concParams, bound int, p
 		if d.TB == 0 {
 			d.TB = bound
 		}
-		d.QB, d.TB = max(1, d.QB-1), max(1, d.TB-1)
+		if !d.RevSame {
+			d.QB, d.TB = max(1, d.QB-1), max(1, d.TB-1)
+		}
 		drivers = append(drivers, d)
 	}
 	// statement granularity inside package leveldb: a third variant of the drivers that ask for
